@@ -134,7 +134,7 @@ func c03Check(mon *Mon, db *database.Database, ref *c03Ref, q string, o database
 		termCap = 10
 	}
 	exact := len(terms) <= termCap // all content words are used; otherwise only the first four are guaranteed
-	par := db.VerifBM25Params()     // k1, b(cmd,desc,keys,tags), w(cmd,desc,keys,tags), minIDF
+	par := db.VerifBM25Params()    // k1, b(cmd,desc,keys,tags), w(cmd,desc,keys,tags), minIDF
 	k1 := par[0]
 	bb := [4]float64{par[1], par[2], par[3], par[4]}
 	ww := [4]float64{par[5], par[6], par[7], par[8]}
